@@ -499,7 +499,7 @@ def callAfterNewline (s : Str) : Bool :=
 stripping of `ioDenylistNormalise` turns them live -/
 def markerInQuotedIdent (s : Str) : Bool :=
   ((maskLits (s.map (fun c => if c == '`' then '"' else c))).2.filter (·.ident)).any
-    (fun m => containsSub "--".toList m.orig || containsSub "/*".toList m.orig || m.orig.any (· == '\''))
+    (fun m => containsSub "--".toList m.orig || containsSub "/*".toList m.orig || m.orig.any (fun c => c == '\'' || c == '$'))
 
 def inK (s hdr : Str) : Bool :=
   s.all (fun c => c.toNat < 128 && (c.toNat ≥ 32 || c == '\n' || c == '\t' || c == '\r')) &&
